@@ -369,14 +369,14 @@ def main():
 
     def match_known(rec, clause):
         """a failing clause of a record is excused only if the record carries the tag of a `known` entry
-        AND that entry lists this clause (entries without any clause information match every clause)"""
+        AND that entry lists this clause (an entry without clause information excuses nothing)"""
         for k in known_active:
             if k["id"] not in rec.get("tags", []):
                 continue
             allowed = set(k.get("clauses", []))
             if k.get("clause"):
                 allowed.add(k["clause"])
-            if not allowed or clause in allowed:
+            if clause in allowed:
                 return k
         return None
 
